@@ -71,7 +71,7 @@ func (c *monC18) After(m *Machine, s *Step) *Violation {
 		return nil
 	}
 	// (0) a backend error inside a module handler ends the request with an error outcome
-	if r.Fired != "" && op.FK == "generic" && r.Fired != "MailRender" && r.Rec.HandlerRan && op.FA > r.Rec.CallsBeforeHandler &&
+	if r.Fired != "" && op.FK == "generic" && r.Fired != "MailRender" && r.Fired != "MailSend" && r.Rec.HandlerRan && op.FA > r.Rec.CallsBeforeHandler &&
 		r.Rec.HandlerErr == nil && r.Panic == nil && r.Status < 500 &&
 		// logout looks the user up only to name it in its log line and logs out whoever it is
 		!(op.K == "logout" && r.Fired == "Load") {
